@@ -27,10 +27,10 @@ def _pos(dt, shape, salt=2):
 def _pc_dims(rule):
     integer = "integer" in rule["id"]
     d = [
-        Dim("rank", [4, 3], [4, 3, 5]),
         Dim("pads", ["sym1", "asym", "zero", "neg", "batch", "chan"]),
         Dim("cv", ["absent", "0", "1", "empty"] + ([] if integer else ["-0.0", "1e-9"])),
-        Dim("axes", ["absent", "spatial", "neg-spatial", "last-only", "all"]),
+        Dim("axes", ["absent", "spatial", "neg-spatial"], ["absent", "spatial", "neg-spatial", "last-only", "all"]),
+        Dim("rank", [4, 3, 5], cost=1),
     ]
     if integer:
         d += [Dim("xzp", ["absent", "0", "3"]), Dim("wzp", ["absent", "2"], cost=1), Dim("xdt", ["u8", "i8"], cost=1)]
